@@ -3,7 +3,7 @@
 use crate::ctx::Ctx;
 use crate::elem::{Elem, B1, L200, P8, T24};
 use crate::mapdrv::{pick_plan, MapDrv};
-use crate::plan::{plan_hash, KeyRef, Plan};
+use crate::plan::{plan_hash, KeyRef, LooseRef, Plan};
 use crate::props::c04::{build_state, Recipe, StateSpec};
 use crate::states::{build, Coll, Spec, TableC, RECIPES};
 use crate::util::{catch_expected, Json, Rng};
@@ -148,6 +148,60 @@ fn map_case<K: Elem, V: Elem>(c: &mut Ctx, rng: &mut Rng) {
             return;
         }
     }
+}
+
+/// Many requests (N up to 20) for ONE entry through an unlawful borrowed form whose hashes all differ
+/// (plan `identonetag`: position = low id bits, one tag, so every request still reaches the entry):
+/// the call must panic, or at least never hand out overlapping references.
+fn map_many_loose<K: Elem, V: Elem, const N: usize>(c: &mut Ctx, rng: &mut Rng) {
+    use crate::plan::PlanBH;
+    let n = 1 + rng.below(12) as u32;
+    let mut d: MapDrv<K, V> = MapDrv::new(PlanBH::new(Plan::IdentOneTag, rng.next()), 64, *rng.pick(&[0usize, 3, 14]));
+    for id in 0..n {
+        let (k, kg) = d.mk_k(id);
+        let (v, vv, vg) = d.mk_v(rng);
+        d.map.insert(k, v);
+        d.model.insert(id, kg, vv, vg);
+    }
+    let target = rng.below(n as u64) as u32;
+    // requests: mostly the target under different classes, a few other present/absent keys in between
+    let reqs: [LooseRef; N] = std::array::from_fn(|i| {
+        if rng.chance(1, 6) {
+            LooseRef { id: rng.below(n as u64 + 3) as u32, class: 0 }
+        } else {
+            LooseRef { id: target, class: i as u32 + 1 }
+        }
+    });
+    let ks: [&LooseRef; N] = std::array::from_fn(|i| &reqs[i]);
+    let dup = (0..N).any(|i| (0..i).any(|j| reqs[i].id == reqs[j].id && reqs[i].id < n));
+    let what = format!("HashMap<{},{}>::get_many_mut with {} requests through an unlawful borrowed form (one entry under many hashes)", K::NAME, V::NAME, N);
+    let mut desc = d.describe("C15 many requests for one entry");
+    desc.set("N", Json::i(N));
+    c.describe(desc);
+    c.evaluations += 1;
+    c.sig_parts(&[200 + N as u64, dup as u64]);
+    let map = &mut d.map;
+    let r = catch_expected(|| {
+        let res = map.get_many_mut(ks);
+        let mut addrs = Vec::new();
+        for v in res.into_iter().flatten() {
+            addrs.push((v as *mut V as usize, std::mem::size_of::<V>()));
+        }
+        addrs
+    });
+    match r {
+        Err(msg) => {
+            crate::check!(msg.contains("duplicate"), "{}: unexpected panic {}", what, msg);
+            crate::check!(dup, "{}: panicked although no two requests name the same key", what);
+            c.bump("duplicate_panics_observed");
+        }
+        Ok(addrs) => {
+            no_overlap(&what, &addrs);
+            crate::check!(!dup, "{}: returned {} references although several requests resolve to one entry", what, addrs.len());
+            c.bump("calls_returned");
+        }
+    }
+    d.validate(c, "get_many_mut (loose)");
 }
 
 /// Large tables (thousands of buckets, reached by growth or by reserve): request order and own-entry must hold there too.
@@ -302,6 +356,12 @@ pub fn run(c: &mut Ctx) {
             _ => table_case::<L200>(c, rng),
         },
         5 => big_map_case::<P8, P8>(c, rng),
+        4 => match rng.below(4) {
+            0 => map_many_loose::<P8, P8, 3>(c, rng),
+            1 => map_many_loose::<P8, T24, 16>(c, rng),
+            2 => map_many_loose::<T24, T24, 17>(c, rng),
+            _ => map_many_loose::<P8, P8, 20>(c, rng),
+        },
         0 => map_case::<P8, P8>(c, rng),
         1 => map_case::<T24, T24>(c, rng),
         2 => map_case::<B1, L200>(c, rng),
